@@ -51,7 +51,9 @@ impl CompilerTrait for Tracing {
     type Expression = tir::Expression;
 
     fn compile(&mut self, t: &AnyTir) -> Result<CompiledTx, tx3_tir::compile::Error> {
-        let r = self.inner.compile(t);
+        // through the trait, as the generic resolve_tx reaches the compiler (an inherent method of the same name
+        // on tx3_cardano::Compiler would otherwise be preferred here and hide what resolve_tx really calls)
+        let r = <tx3_cardano::Compiler as CompilerTrait>::compile(&mut self.inner, t);
         {
             let AnyTir::V1Beta0(tx) = t;
             *self.last_tir.borrow_mut() = crate::tirjson::tx_json(tx);
@@ -65,12 +67,12 @@ impl CompilerTrait for Tracing {
     }
 
     fn reduce_op(&self, op: Self::CompilerOp) -> Result<Self::Expression, tx3_tir::reduce::Error> {
-        self.inner.reduce_op(op)
+        <tx3_cardano::Compiler as CompilerTrait>::reduce_op(&self.inner, op)
     }
 
     fn reset(&mut self) {
         *self.resets.borrow_mut() += 1;
-        self.inner.reset();
+        <tx3_cardano::Compiler as CompilerTrait>::reset(&mut self.inner);
     }
 }
 
